@@ -1102,9 +1102,11 @@ func (x *Exec) blockField(b Term, bt types.Type, path ...string) Term {
 	return cur
 }
 
-func (x *Exec) blockNum(b Term, bt types.Type) Term    { return x.blockField(b, bt, "Header", "Number") }
-func (x *Exec) blockHash(b Term, bt types.Type) Term   { return x.blockField(b, bt, "Header", "Hash") }
-func (x *Exec) blockParent(b Term, bt types.Type) Term { return x.blockField(b, bt, "Header", "Parent") }
+func (x *Exec) blockNum(b Term, bt types.Type) Term  { return x.blockField(b, bt, "Header", "Number") }
+func (x *Exec) blockHash(b Term, bt types.Type) Term { return x.blockField(b, bt, "Header", "Hash") }
+func (x *Exec) blockParent(b Term, bt types.Type) Term {
+	return x.blockField(b, bt, "Header", "Parent")
+}
 
 // afterCall assumes the `after <callee> assume <expr>` clauses of the function
 // under verification (assumed call-site contracts, listed as assumptions).
